@@ -1149,6 +1149,10 @@ namespace detail {
                     {
                         end = current.size();
                     }
+                    if (step > end)
+                    {
+                        step = end > 0 ? end : 1; // a larger step selects the same elements and cannot overflow i
+                    }
                     for (int64_t i = start; i < end; i += step)
                     {
                         auto j = static_cast<std::size_t>(i);
@@ -1166,6 +1170,10 @@ namespace detail {
                     if (end < -1)
                     {
                         end = -1;
+                    }
+                    if (step < -(start + 1) && start >= 0)
+                    {
+                        step = -(start + 1); // a larger step selects the same elements and cannot overflow i
                     }
                     for (int64_t i = start; i > end; i += step)
                     {
